@@ -36,6 +36,9 @@ pub struct KCase {
     /// build `Kernel<f32>` (records and kernel parameters rounded to f32 first)
     #[serde(default)]
     pub single: bool,
+    /// order of the `KernelParams` builder calls, see `params_in_order`
+    #[serde(default)]
+    pub order: u8,
 }
 
 fn one() -> f64 {
@@ -78,6 +81,43 @@ pub fn nn_name(nn: &CommonNearestNeighbour) -> &'static str {
     }
 }
 
+/// `KernelParams` built by calling the setters in a generated order (the last call of a setter wins):
+/// `order % 6` = permutation of (kind, method, nn_algo); `order / 6 % 3` = 0: `Kernel::params()` + the three
+/// setters, 1: the three setters with decoy values first, then the real ones, 2: `Kernel::params_with_nn(nn)`
+/// + kind/method (nn_algo not called).
+pub fn params_in_order<F: Float>(method: &KM, kind: KernelType, nn: CommonNearestNeighbour, order: u8) -> KernelParams<F, CommonNearestNeighbour> {
+    const PERMS: [[u8; 3]; 6] = [[0, 1, 2], [0, 2, 1], [1, 0, 2], [1, 2, 0], [2, 0, 1], [2, 1, 0]];
+    let perm = PERMS[(order % 6) as usize];
+    let mode = (order / 6) % 3;
+    let apply = |p: KernelParams<F, CommonNearestNeighbour>, which: u8, kind: &KernelType, method: &KM, nn: &CommonNearestNeighbour| match which {
+        0 => p.kind(kind.clone()),
+        1 => p.method(to_method(method)),
+        _ => p.nn_algo(nn.clone()),
+    };
+    if mode == 2 {
+        let mut p: KernelParams<F, CommonNearestNeighbour> = Kernel::params_with_nn(nn.clone());
+        for w in perm {
+            if w != 2 {
+                p = apply(p, w, &kind, method, &nn);
+            }
+        }
+        return p;
+    }
+    let mut p: KernelParams<F, CommonNearestNeighbour> = Kernel::params();
+    if mode == 1 {
+        let decoy_kind = if matches!(kind, KernelType::Dense) { KernelType::Sparse(1) } else { KernelType::Dense };
+        let decoy_method = if matches!(method, KM::Linear) { KM::Gaussian(0.5) } else { KM::Linear };
+        let decoy_nn = if matches!(nn, CommonNearestNeighbour::BallTree) { CommonNearestNeighbour::LinearSearch } else { CommonNearestNeighbour::BallTree };
+        for w in [perm[2], perm[0], perm[1]] {
+            p = apply(p, w, &decoy_kind, &decoy_method, &decoy_nn);
+        }
+    }
+    for w in perm {
+        p = apply(p, w, &kind, method, &nn);
+    }
+    p
+}
+
 /// Build a kernel through one of the public construction paths. Returns the kernel and whether the
 /// path preserved the targets it was given (true when the path carries no targets).
 pub fn build<F: Float>(
@@ -86,9 +126,9 @@ pub fn build<F: Float>(
     kind: KernelType,
     nn: CommonNearestNeighbour,
     path: u8,
+    order: u8,
 ) -> (Kernel<F>, bool) {
-    let params: KernelParams<F, CommonNearestNeighbour> =
-        Kernel::params_with_nn(nn).kind(kind).method(to_method(method));
+    let params: KernelParams<F, CommonNearestNeighbour> = params_in_order(method, kind, nn, order);
     let n = x.nrows();
     match path % 6 {
         0 => (params.transform(x.view()), true),
@@ -375,6 +415,11 @@ fn check_kernel_t<F: Float>(c: &KCase, prec: Prec, obs: &mut Obs) {
     obs.class_if(max_off >= 1e7, "offset_1e8");
     obs.class_if(c.offset.windows(2).any(|w| w[0] != w[1]), "offset_differs_per_feature");
     obs.class_if(c.scale != 1.0, "spacing_scaled");
+    obs.class(match (c.order / 6) % 3 {
+        0 => "params_setters_permuted",
+        1 => "params_setters_called_twice",
+        _ => "params_with_nn",
+    });
     let method = rounded_method::<F>(&c.method);
     let x: Array2<F> = to_arr(&recs);
     obs.class_if(n == 0, "n_eq_0");
@@ -430,7 +475,7 @@ fn check_kernel_t<F: Float>(c: &KCase, prec: Prec, obs: &mut Obs) {
 
     // ---------------------------------------------------------------- dense
     let mut dense_m: Option<Mat> = None;
-    if let Some((kd, targets_ok)) = obs.call("build-dense", || build::<F>(&x, &method, KernelType::Dense, CommonNearestNeighbour::KdTree, c.path)) {
+    if let Some((kd, targets_ok)) = obs.call("build-dense", || build::<F>(&x, &method, KernelType::Dense, CommonNearestNeighbour::KdTree, c.path, c.order)) {
         obs.ensure(targets_ok, "build:targets-changed", || "the dataset transform did not hand the targets through unchanged".into());
         obs.ensure(matches!(kd.inner, KernelInner::Dense(_)), "dense:wrong-variant", || "KernelType::Dense produced a sparse inner matrix".into());
         match densify(&kd, n) {
@@ -532,7 +577,7 @@ fn check_kernel_t<F: Float>(c: &KCase, prec: Prec, obs: &mut Obs) {
             continue;
         }
         let what = format!("build-sparse:{name}");
-        let Some((ks, targets_ok)) = obs.call(&what, || build::<F>(&x, &method, KernelType::Sparse(k), nn.clone(), c.path)) else { continue };
+        let Some((ks, targets_ok)) = obs.call(&what, || build::<F>(&x, &method, KernelType::Sparse(k), nn.clone(), c.path, c.order)) else { continue };
         obs.ensure(targets_ok, "build:targets-changed", || "the dataset transform did not hand the targets through unchanged".into());
         obs.ensure(matches!(ks.inner, KernelInner::Sparse(_)), "sparse:wrong-variant", || "KernelType::Sparse produced a dense inner matrix".into());
         let (m, pat) = match densify(&ks, n) {
